@@ -54,12 +54,12 @@ Print Assumptions C03_unify_gen_matches_unify.
    raised) gives back h0. *)
 Theorem C03_frame_next_restores :
   forall (L X E P : Type) (mkleaf : X -> heap -> L) (lnext : nat -> heap -> L -> option (heap * L * res))
-         (lclose : heap -> L -> heap) (prog : P -> code X E P * E) (LInv : heap -> L -> heap -> Prop),
+         (lclose : heap -> L -> heap) (prog : P -> code X E P * E) (gho : E -> nat) (LInv : heap -> L -> heap -> Prop),
   (forall x h, LInv h (mkleaf x h) h) ->
   (forall n h0 l hc h' l' r, LInv h0 l hc -> lnext n hc l = Some (h', l', r) -> LInv h0 l' h' /\ (r = RStop -> h' = h0)) ->
   (forall h0 l hc, LInv h0 l hc -> lclose hc l = h0) ->
   forall n d h0 it h h' it' r,
-    Inv LInv h0 it h -> inext mkleaf lnext lclose prog n d h it = Some (h', it', r) ->
+    Inv LInv h0 it h -> inext mkleaf lnext lclose prog gho n d h it = Some (h', it', r) ->
     Inv LInv h0 it' h' /\ (r = RStop -> h' = h0) /\ iclose lclose h' it' = h0.
 Proof. exact frame_next_restores. Qed.
 Print Assumptions C03_frame_next_restores.
@@ -69,13 +69,13 @@ Print Assumptions C03_frame_next_restores.
    the heap is h0 when the exception arrives at the consumer *)
 Theorem C03_throw_restores :
   forall (L X E P : Type) (mkleaf : X -> heap -> L) (lnext : nat -> heap -> L -> option (heap * L * res))
-         (lclose : heap -> L -> heap) (prog : P -> code X E P * E) (LInv : heap -> L -> heap -> Prop),
+         (lclose : heap -> L -> heap) (prog : P -> code X E P * E) (gho : E -> nat) (LInv : heap -> L -> heap -> Prop),
   (forall x h, LInv h (mkleaf x h) h) ->
   (forall n h0 l hc h' l' r, LInv h0 l hc -> lnext n hc l = Some (h', l', r) -> LInv h0 l' h' /\ (r = RStop -> h' = h0)) ->
   (forall h0 l hc, LInv h0 l hc -> lclose hc l = h0) ->
   forall n d h0 it h h' it' r,
     Inv LInv h0 it h -> is_frame it -> d <> 0 ->
-    inext mkleaf lnext lclose prog n d h it = Some (h', it', r) -> r <> RYield -> h' = h0 /\ it' = IDone.
+    inext mkleaf lnext lclose prog gho n d h it = Some (h', it', r) -> r <> RYield -> h' = h0 /\ it' = IDone.
 Proof. exact throw_restores. Qed.
 Print Assumptions C03_throw_restores.
 
@@ -83,8 +83,8 @@ Print Assumptions C03_throw_restores.
    to k answers, however the last __next__ ended (another answer: r = RYield, exhausted: RStop,
    exception: RRaise): closing / dropping the generator gives back h; if it did not end in an
    answer the heap already is h; at every answer the heap is h plus newer bindings on top. *)
-Theorem C03_query_restores : forall (E P : Type) (prog : P -> code (term * term) E P * E) n d k h c e hf itf ys r,
-  nexts umkleaf ulnext ulclose prog n d k h (IFresh c e) = Some (hf, itf, ys, r) ->
+Theorem C03_query_restores : forall (E P : Type) (prog : P -> code (term * term) E P * E) (gho : E -> nat) n d k h c e hf itf ys r,
+  nexts umkleaf ulnext ulclose prog gho n d k h (IFresh c e) = Some (hf, itf, ys, r) ->
   iclose ulclose hf itf = h /\ (r <> RYield -> d <> 0 -> hf = h)
   /\ Forall (fun y => exists nw, y = nw ++ h) ys.
 Proof. exact query_restores_unify. Qed.
@@ -92,10 +92,10 @@ Print Assumptions C03_query_restores.
 
 (* "re-running a side-effect-free query on the same engine and the same variables gives the same
    answer sequence again" *)
-Theorem C03_rerun_same : forall (E P : Type) (prog : P -> code (term * term) E P * E) n d k h c e hf itf ys r,
+Theorem C03_rerun_same : forall (E P : Type) (prog : P -> code (term * term) E P * E) (gho : E -> nat) n d k h c e hf itf ys r,
   d <> 0 -> r <> RYield ->
-  nexts umkleaf ulnext ulclose prog n d k h (IFresh c e) = Some (hf, itf, ys, r) ->
-  nexts umkleaf ulnext ulclose prog n d k hf (IFresh c e) = Some (hf, itf, ys, r).
+  nexts umkleaf ulnext ulclose prog gho n d k h (IFresh c e) = Some (hf, itf, ys, r) ->
+  nexts umkleaf ulnext ulclose prog gho n d k hf (IFresh c e) = Some (hf, itf, ys, r).
 Proof. exact rerun_same_unify. Qed.
 Print Assumptions C03_rerun_same.
 
